@@ -269,9 +269,7 @@ func newSigner(r *hlib.Rand) *signer {
 	nb, na := cl.CAWindow(r)
 	f := cl.Fields{Version: version, Curve: int(curve), IsCA: true, NotBefore: nb, NotAfter: na, Name: "ca",
 		Networks: cl.CANets(r, version == 2), Unsafe: cl.CANets(r, version == 2), PublicKey: key.Pub}
-	if r.Bool() {
-		f.Groups = cl.Subset(r, cl.GroupUniverse)
-	}
+	f.Groups = cl.CAGroups(r)
 	if r.Chance(1, 4) {
 		// stub CA: arbitrary fields, sub-second bounds, but a real key so that issued certificates verify
 		if r.Bool() {
